@@ -51,10 +51,11 @@ def _uf1(name, x, axioms=None):
         dlt = z3.simplify(a - b, som=True)
         if z3.is_rational_value(dlt):
             return dlt.as_fraction() == 0
-        if not (_has_div(a) or _has_div(b)):
-            return False
-        if _numerically_different(c, dlt):
-            return False
+        if getattr(c, "numeric_filter", False):
+            if not (_has_div(a) or _has_div(b)):
+                return False
+            if _numerically_different(c, dlt):
+                return False
         return _prove_eq(c, a, b, [], timeout=1500)
 
     for arg, app in apps:
@@ -75,43 +76,66 @@ def _uf1(name, x, axioms=None):
     return Sym(e)
 
 
-def _leaves(e, out, seen):
-    stack = [e]
-    while stack:
-        t = stack.pop()
-        i = t.get_id()
-        if i in seen:
-            continue
-        seen.add(i)
-        if z3.is_app(t):
-            if t.decl().kind() == z3.Z3_OP_UNINTERPRETED:
-                out.append(t)
-                continue
-            stack.extend(t.children())
+def _numeric(e, memo):
+    """exact rational value of a term under a deterministic pseudo-random assignment of its atoms.  Applications of
+    uninterpreted functions get a value that is a function of the function name and of the VALUES of their
+    arguments, so congruent applications evaluate alike.  Returns None when the value is undefined (division by
+    zero) or the term contains a construct that is not evaluated."""
+    import zlib
+    from fractions import Fraction
+    k = e.get_id()
+    if k in memo:
+        return memo[k]
+
+    def pseudo(text):
+        h = zlib.crc32(text.encode())
+        return Fraction(3 + h % 991, 3 + (h // 991) % 89)
+
+    r = None
+    if z3.is_int_value(e):
+        r = Fraction(e.as_long())
+    elif z3.is_rational_value(e):
+        r = e.as_fraction()
+        r = Fraction(r.numerator, r.denominator)
+    elif z3.is_app(e):
+        kind = e.decl().kind()
+        ch = e.children()
+        if kind == z3.Z3_OP_UNINTERPRETED:
+            vals = [_numeric(c, memo) for c in ch]
+            if all(v is not None for v in vals):
+                r = pseudo(e.decl().name() + "|" + ",".join(f"{v.numerator}/{v.denominator}" for v in vals))
+                if z3.is_int(e):
+                    r = Fraction(2 + r.numerator % 37)
+        elif kind in (z3.Z3_OP_ADD, z3.Z3_OP_MUL, z3.Z3_OP_SUB, z3.Z3_OP_UMINUS, z3.Z3_OP_DIV, z3.Z3_OP_TO_REAL):
+            vals = [_numeric(c, memo) for c in ch]
+            if all(v is not None for v in vals):
+                if kind == z3.Z3_OP_ADD:
+                    r = sum(vals, Fraction(0))
+                elif kind == z3.Z3_OP_MUL:
+                    r = Fraction(1)
+                    for v in vals:
+                        r *= v
+                elif kind == z3.Z3_OP_SUB:
+                    r = vals[0] - sum(vals[1:], Fraction(0))
+                elif kind == z3.Z3_OP_UMINUS:
+                    r = -vals[0]
+                elif kind == z3.Z3_OP_TO_REAL:
+                    r = vals[0]
+                elif vals[1] != 0:
+                    r = vals[0] / vals[1]
+        else:
+            r = None
+    memo[k] = r
+    return r
 
 
 def _numerically_different(c, dlt):
-    """evaluate the difference at two random exact-rational assignments of its leaf terms (uninterpreted
-    applications and constants); a non-zero value at either separates the terms for certain"""
-    import random
-    leaves = []
-    _leaves(dlt, leaves, set())
-    table = c.uf_cache.setdefault("numeric_leaf_values", {})
-    for trial in range(2):
-        subs = []
-        for t in leaves:
-            key = (S.eid(t), trial)
-            if key not in table:
-                rnd = random.Random(hash((t.sexpr(), trial)) & 0xFFFFFFF)
-                if z3.is_int(t):
-                    table[key] = z3.IntVal(rnd.randint(2, 40))
-                else:
-                    table[key] = z3.RealVal(f"{rnd.randint(3, 997)}/{rnd.randint(3, 97)}")
-            subs.append((t, table[key]))
-        v = z3.simplify(z3.substitute(dlt, *subs)) if subs else z3.simplify(dlt)
-        if z3.is_rational_value(v) and v.as_fraction() != 0:
-            return True
-    return False
+    """the difference of two terms evaluates to a non-zero exact rational under the deterministic assignment: the
+    terms are certainly not identical as functions of their atoms (never merging them is sound)"""
+    memo = c.uf_cache.setdefault("numeric_memo", {})
+    S.PIN.append(dlt)
+    v = _numeric(dlt, memo)
+    return v is not None and v != 0
 
 
 def _has_div(e):
